@@ -20,7 +20,8 @@ COMPONENTS = ["..", ".", "", "a", "b.txt", "dst", "dst-evil", "dstX"]
 RULE = ("member names built from components %r joined with '/' and '\\\\', relative and absolute (also absolute "
         "paths of sandbox decoys), every name to depth 3 (quick) / 5 (thorough; separators sampled), as "
         "single-member archives and in random multi-member archives with directory entries; destination given "
-        "plain, with trailing separator, relative, and containing '..'; also through nuwiki.Adapt(ZipFile); "
+        "plain, with trailing separator, relative, and containing '..'; also through nuwiki.Adapt(ZipFile) and "
+        "wiki.make_wiki() on nuwiki and multi-nuwiki archives; "
         "non-trivial = name contains '..', is absolute, or names a decoy; distinct = distinct (member list, dst form)"
         % (COMPONENTS,))
 ASSUMPTIONS = [
@@ -32,7 +33,8 @@ REQUIRED = {"extractions": 500, "escaping_archives": 100, "escaping_rejected": 1
 LEVEL_TEXT = ("Exploration with a bounded-exhaustive part: every member name of the quantifier's component set to "
               "depth 3 (quick) / 5 (thorough) is extracted by the real nuwiki.extractall inside a sandbox; a "
               "filesystem diff and an audit-hook recorder decide 'nothing outside dst', an independent resolver "
-              "decides which archives must be rejected.")
+              "decides which archives must be rejected (an escaping member written under another name inside the "
+              "destination counts as not rejected).")
 LEVEL_NOTE = "Trusts the audit hook's coverage of file-creating calls and the 15-line reference path resolver."
 TECHNIQUE = "runtime monitor: filesystem diff + sys.addaudithook write recorder around the real extraction, bounded-exhaustive member names"
 
